@@ -13,6 +13,9 @@
     (12 0 sched)     the same with mark_subscribers_check under the read lock   (hang)
     (13 sched)       signal -> memo -> ImmediateEffect on one thread, HEAD   (hang)
     (14 sched)       the same before the memo fix   (hang)
+    (15)             by_ref() guard kept across an await on the executor thread of the reload: sequential, ((1 1) 2 0)
+    (16 kind sched)  synchronous read guard on another thread released by a task queued behind the reload   ((st v) final hang)
+    (17 sched)       synchronous read while the value's task holds the write lock (in the Drop of the old value)   ((st v) final hang)
     (7 sched)        signal read vs write holding the lock      ((reader_status value) writer_status final_s)
     status: 0 = waiting at a yield point / parked, 1 = finished, 2 = blocked on a lock, 3 = panicked *)
 From Coq Require Import List ZArith NArith Bool Arith.
@@ -80,6 +83,16 @@ Definition obs_read (s : rst) : sexp :=
        Num (match r_w s with WDone => 1 | _ => 0 end)%Z;
        Num (r_sv s)].
 
+Definition obs_h (s : hst) : sexp :=
+  Lst [Lst [Num (match h_p1 s with 2%nat => 1 | _ => 0 end)%Z; Num (match h_p1 s with 2%nat => h_got s | _ => 0%Z end)];
+       Num (h_val s); Num 0].
+Definition obs_d (s : dst) : sexp :=
+  match d_p1 s with
+  | 1%nat => Lst [Lst [Num 0; Num 0]; Num (-1); Num 1]
+  | 2%nat => Lst [Lst [Num 1; Num (d_got s)]; Num (d_val s); Num 0]
+  | _ => Lst [Lst [Num 0; Num 0]; Num (d_val s); Num 0]
+  end.
+
 Definition run_C19 (c : sexp) : sexp :=
   match as_Z (nth_s 0 c) with
   | 0%Z => obs_await (arun Prefix (ainit (as_bools (nth_s 1 c))) (as_nats (nth_s 2 c)))
@@ -92,6 +105,9 @@ Definition run_C19 (c : sexp) : sexp :=
   | 5%Z => obs_lock (lrun_coarse (linit [e_rerun_sd; d_complete]) (as_nats (nth_s 2 c)))
   | 6%Z => obs_lock (lrun_coarse (linit [e_rerun_sd; d_complete_prefix]) (as_nats (nth_s 2 c)))
   | 7%Z => obs_read (rrun rinit (as_nats (nth_s 1 c)))
+  | 15%Z => Lst [Lst [Num 1; Num 1]; Num 2; Num 0]
+  | 16%Z => obs_h (hrun hinit (as_nats (nth_s 2 c)))
+  | 17%Z => obs_d (drun dinit (as_nats (nth_s 1 c)))
   | 10%Z => obs_await_u (urun (uinit (as_bools (nth_s 1 c))) (as_nats (nth_s 2 c)))
   | 11%Z => obs_lock (lrun_coarse (linit [e_rerun_mt; s_set_me]) (as_nats (nth_s 2 c)))
   | 12%Z => obs_lock (lrun_coarse (linit [e_rerun_mt; s_set_me_prefix]) (as_nats (nth_s 2 c)))
